@@ -21,7 +21,7 @@ parsers, which read through the checked psParseBuf primitives.
 """
 from sa.build import AnalysisBroken
 from sa.cg import load_cg
-from sa.ir import load_program, strip, walk
+from sa.ir import load_program, strip, walk, ASSIGN_OPS as cu_ASSIGN
 from sa.report import Finding, Result
 from sa.pp import pp
 from sa import cfgutil as cu
@@ -417,4 +417,246 @@ def run(tier):
                 ca.process(z, x)
             ca.obligations = save
     res.floor("C08.R2", 5)
+    rule_R3(res, prog)
     return res.finish()
+
+
+def rule_R3(res, prog):
+    """TLS 1.3 record decoder and handshake reassembly (code that touches raw memory outside the checked psParseBuf
+    readers).
+     (a) matrixSslDecodeTls13 / the reassembly functions: an unsigned local is decreased by a constant only under a branch
+         fact that excludes smaller values (ptLen = rec.len - tag; ptLen--: a record that is only a tag must not wrap
+         the length that positions the padding scan).
+     (b) ssl->fragIndex never passes ssl->fragTotal: every `fragIndex += V` adds either the value psParseBufCopyN
+         reported for a request that is min(.., fragTotal - fragIndex), or - right after fragIndex = 0 - the initial
+         fragment, whose call site lies on the 0-outcome of psParseCanRead(&pb, hsMsgLen) with the header rewind equal
+         to the header length added to fragTotal.  psParseBufCopyN itself only ever reports its (clamped) request."""
+    rid = "C08.R3"
+    res.rule(rid, "TLS 1.3 decoder: constant decrements of unsigned lengths are guarded; the reassembly index never passes the total")
+    UNS = ("unsigned", "uint", "psSize_t", "size_t", "psSizeL_t")
+    names = ("matrixSslDecodeTls13", "tls13FragMessageReadInit", "tls13FragMessageReadContinue", "tls13ParseHandshakeMessage")
+    fns = [f for f in prog.functions.values() if f.name in names and f.relfile.startswith("matrixssl/")]
+    if len(fns) < 3:
+        raise AnalysisBroken("C08.R3: TLS 1.3 decoder / reassembly functions not found (%s)" % sorted(f.name for f in fns))
+    # ---- (a)
+    for fn in sorted(fns, key=lambda f: f.name):
+        gf = cu.guard_facts(fn)
+        for b in fn.blocks:
+            for i, ln, x in cu.block_exprs(b):
+                for nd in walk(x):
+                    v = k = None
+                    if nd.get("k") == "un" and nd["op"] in ("post--", "pre--"):
+                        v, k = strip(nd["e"]), 1
+                    elif nd.get("k") == "bin" and nd["op"] == "-=" and (strip(nd["r"]) or {}).get("k") == "int":
+                        v, k = strip(nd["l"]), strip(nd["r"])["v"]
+                    if v is None or v.get("k") != "var" or "*" in (v.get("t") or "") or not any(u in (v.get("t") or "") for u in UNS):
+                        continue
+                    vt = cu.ftext(v)
+                    ok = False
+                    for (txt, tr) in gf.get(b["id"], frozenset()):
+                        for op, want in (("==", False), ("!=", True), ("<", False), (">=", True), (">", True), ("<=", False)):
+                            pre = "(%s %s " % (vt, op)
+                            if txt.startswith(pre) and txt.endswith(")") and tr == want:
+                                try:
+                                    c_ = int(txt[len(pre):-1])
+                                except ValueError:
+                                    continue
+                                if op in ("==", "!=") and c_ == 0 and k == 1:
+                                    ok = True
+                                if op in ("<", ">=") and c_ >= k:
+                                    ok = True
+                                if op in (">", "<=") and c_ >= k - 1:
+                                    ok = True
+                        if txt == vt and tr and k == 1:
+                            ok = True
+                    f_ = None
+                    if not ok:
+                        f_ = Finding(PROP, rid, fn.name, "%s may wrap below zero" % v["n"],
+                                     "%s:%s %s(): `%s` decreases the unsigned %s without a branch fact that it is at least %d on this path: "
+                                     "for the smallest input (e.g. a record that is only an AEAD tag) the length wraps to 2^32 - 1 and the "
+                                     "pointers derived from it leave the buffer" % (fn.relfile, ln, fn.name, pp(nd)[:30], v["n"], k),
+                                     file=fn.relfile, line=ln)
+                    res.instance(rid, "%s:%s %s guarded (>= %d)" % (fn.name, ln, pp(nd)[:30], k), ok, finding=f_)
+    # ---- (b)
+    def is_frag(e, f):
+        e = strip(e)
+        return e is not None and e.get("k") == "mem" and e.get("f") == f
+
+    def remaining_expr(e):
+        e = strip(e)
+        while e is not None and e.get("k") == "cast":
+            e = strip(e["e"])
+        return e is not None and e.get("k") == "bin" and e["op"] == "-" and is_frag(e["l"], "fragTotal") and is_frag(e["r"], "fragIndex")
+    # summary of psParseBufCopyN: every store through the length out-parameter stores the (clamped) request
+    cp = prog.fn("psParseBufCopyN")
+    req_p, out_p = cp.params[1], cp.params[3]
+    summ = True
+    nst = 0
+    for b_, ln_, nd in cp.nodes():
+        if nd.get("k") == "bin" and nd["op"] == "=":
+            l = strip(nd["l"])
+            if l is not None and l.get("k") == "un" and l["op"] == "*" and (strip(l["e"]) or {}).get("id") == out_p.get("id"):
+                nst += 1
+                if (strip(nd["r"]) or {}).get("id") != req_p.get("id"):
+                    summ = False
+            if l is not None and l.get("k") == "var" and l.get("id") == req_p.get("id"):
+                # the request is only ever clamped down: assigned under (reqLen > x) to x
+                r_ = strip(nd["r"])
+                facts = cu.guard_facts(cp).get(b_["id"], frozenset())
+                if not (r_ is not None and r_.get("k") == "var" and ("(%s > %s)" % (req_p["n"], r_["n"]), True) in facts):
+                    summ = False
+    f_ = None
+    if not summ or nst == 0:
+        f_ = Finding(PROP, rid, cp.name, "psParseBufCopyN reports something other than its clamped request",
+                     "%s: a store through the length out-parameter is not the (only ever decreased) request: callers that add the "
+                     "reported length to an index can pass the end of their buffer" % cp.relfile, file=cp.relfile, line=cp.line)
+    res.instance(rid, "psParseBufCopyN: *targetlen is only ever assigned the clamped request (%d stores)" % nst, summ and nst > 0, finding=f_)
+    nb = 0
+    for fn in sorted(fns, key=lambda f: f.name):
+        rd = None
+        dom = None
+        for b in fn.blocks:
+            for i, ln, x in cu.block_exprs(b):
+                for nd in walk(x):
+                    if nd.get("k") != "bin" or nd["op"] not in ("+=", "=") or not is_frag(nd["l"], "fragIndex"):
+                        continue
+                    r = strip(nd["r"])
+                    if nd["op"] == "=" and r is not None and r.get("k") == "int" and r["v"] == 0:
+                        continue
+                    nb += 1
+                    if rd is None:
+                        rd = cu.reaching_defs(fn)
+                        dom = cu.dominators(fn)
+                    ok, why = False, "the added value is not a plain local"
+                    while r is not None and r.get("k") == "cast":
+                        r = strip(r["e"])
+                    if nd["op"] == "+=" and r is not None and r.get("k") == "var" and "id" in r:
+                        ds = cu.defs_at(fn, rd, b["id"], i, r["id"])
+                        why = "no justification found for %s" % r["n"]
+
+                        def bounded_request(e, bid, idx, depth=0):
+                            """e is min(A, B) with A or B == fragTotal - fragIndex (possibly through one local)"""
+                            e = strip(e)
+                            while e is not None and e.get("k") == "cast":
+                                e = strip(e["e"])
+                            if e is None or depth > 3:
+                                return False
+                            if e.get("k") == "var" and "id" in e:
+                                dd = cu.defs_at(fn, rd, bid, idx, e["id"])
+                                return bool(dd) and all(d_[2] in ("decl", "assign") and bounded_request(d_[3], d_[0], d_[1], depth + 1) for d_ in dd)
+                            if e.get("k") == "cond":
+                                c_ = strip(e.get("c"))
+                                a_, b2 = e.get("a"), e.get("b")
+                                if c_ is None or c_.get("k") != "bin" or c_["op"] not in ("<", "<=", ">", ">="):
+                                    return False
+                                sides = {cu.ftext(strip(c_["l"])), cu.ftext(strip(c_["r"]))}
+                                if {cu.ftext(strip(a_)), cu.ftext(strip(b2))} != sides:
+                                    return False
+                                small = (a_ if cu.ftext(strip(a_)) == cu.ftext(strip(c_["l"])) else b2) if c_["op"] in ("<", "<=") else \
+                                    (a_ if cu.ftext(strip(a_)) == cu.ftext(strip(c_["r"])) else b2)
+                                # the arm chosen when the comparison holds must be the smaller side
+                                if cu.ftext(strip(a_)) != cu.ftext(strip(small)):
+                                    return False
+                                return any(is_remaining(o, bid, idx) for o in (a_, b2))
+                            return False
+
+                        def is_remaining(e, bid, idx):
+                            e0 = strip(e)
+                            while e0 is not None and e0.get("k") == "cast":
+                                e0 = strip(e0["e"])
+                            if remaining_expr(e0):
+                                return True
+                            if e0 is not None and e0.get("k") == "var" and "id" in e0:
+                                dd = cu.defs_at(fn, rd, bid, idx, e0["id"])
+                                return bool(dd) and all(d_[2] in ("decl", "assign") and remaining_expr(d_[3]) for d_ in dd)
+                            return False
+                        # other stores to the two fields in this function (would invalidate `remaining`)
+                        others = [m for b2_, l2, m in fn.nodes() if m.get("k") == "bin" and m["op"] in cu_ASSIGN and m is not nd and
+                                  (is_frag(m["l"], "fragIndex") or is_frag(m["l"], "fragTotal"))]
+                        if ds and all(d[2] == "outarg" and d[3]["call"].get("fn") == "psParseBufCopyN" and d[3]["arg"] == 3 for d in ds):
+                            good = True
+                            for d in ds:
+                                call = d[3]["call"]
+                                if not bounded_request(call["a"][1], d[0], d[1]):
+                                    good = False
+                                    why = "the request `%s` of the psParseBufCopyN call at line %s is not min(.., ssl->fragTotal - ssl->fragIndex)" % (
+                                        pp(call["a"][1])[:30], d[4])
+                            if others:
+                                good = False
+                                why = "ssl->fragIndex / fragTotal are also written at line(s) %s in this function" % sorted(set(m.get("ln") for m in others))
+                            ok = good
+                            if ok:
+                                why = "value reported by psParseBufCopyN for a request bounded by fragTotal - fragIndex"
+                        else:
+                            # initial fragment: fragIndex = 0 dominates, fragTotal = L + K, call sites prove V < L + K
+                            zero_dom = any(m.get("k") == "bin" and m["op"] == "=" and is_frag(m["l"], "fragIndex") and
+                                           (strip(m["r"]) or {}).get("k") == "int" and strip(m["r"])["v"] == 0 and b2_["id"] in dom[b["id"]]
+                                           for b2_, l2, m in fn.nodes())
+                            tot = [m for b2_, l2, m in fn.nodes() if m.get("k") == "bin" and m["op"] == "=" and is_frag(m["l"], "fragTotal")]
+                            K = Lp = None
+                            if len(tot) == 1:
+                                tr_ = strip(tot[0]["r"])
+                                if tr_ is not None and tr_.get("k") == "bin" and tr_["op"] == "+" and (strip(tr_["r"]) or {}).get("k") == "int" and \
+                                        (strip(tr_["l"]) or {}).get("sc") == "p":
+                                    K, Lp = strip(tr_["r"])["v"], strip(tr_["l"])
+                            src_ok = bool(ds) and all(d[2] in ("decl", "assign") and (strip(d[3]) or {}).get("k") == "call" and
+                                                      strip(d[3]).get("fn") == "psParseGetRemainingLen" for d in ds)
+                            if not (zero_dom and K is not None and src_ok):
+                                why = "initial-fragment form not recognised (fragIndex = 0 dominating: %s, fragTotal = <param> + K: %s, " \
+                                      "value = psParseGetRemainingLen(pb): %s)" % (zero_dom, K is not None, src_ok)
+                            else:
+                                pidx = [j for j, p_ in enumerate(fn.params) if p_.get("id") == Lp.get("id")][0]
+                                sites_ok, nsites = True, 0
+                                for caller in prog.functions.values():
+                                    crd = cgf = None
+                                    for cb in caller.blocks:
+                                        for ci, cln, cx in cu.block_exprs(cb):
+                                            for cn in walk(cx):
+                                                if cn.get("k") != "call" or cn.get("fn") != fn.name or len(cn.get("a", [])) <= pidx:
+                                                    continue
+                                                nsites += 1
+                                                if cgf is None:
+                                                    cgf = cu.guard_facts(caller)
+                                                    crd = cu.reaching_defs(caller)
+                                                larg = cu.ftext(strip(cn["a"][pidx]))
+                                                site = False
+                                                for (txt, tr) in cgf.get(cb["id"], frozenset()):
+                                                    if tr and txt.endswith(" == 0)"):
+                                                        vn = txt[1:-len(" == 0)")]
+                                                    elif not tr and txt.isidentifier():
+                                                        vn = txt                  # `v == 0` is normalised to the atom (v, False)
+                                                    else:
+                                                        continue
+                                                    for b3, l3, m in caller.nodes():
+                                                        if m.get("k") == "bin" and m["op"] == "=" and cu.ftext(strip(m["l"])) == vn:
+                                                            rr = strip(m["r"])
+                                                            if rr is not None and rr.get("k") == "call" and rr.get("fn") == "psParseCanRead" and \
+                                                                    len(rr.get("a", [])) >= 2 and cu.ftext(strip(rr["a"][1])) == larg and \
+                                                                    b3["id"] in cu.dominators(caller)[cb["id"]]:
+                                                                site = True
+                                                # header rewind in the same block before the call equals K
+                                                rew = 0
+                                                for ci2, cln2, cx2 in cu.block_exprs(cb):
+                                                    if ci2 == ci:
+                                                        break
+                                                    for m in walk(cx2):
+                                                        if m.get("k") == "bin" and m["op"] == "-=" and (strip(m["l"]) or {}).get("f") == "start" and \
+                                                                (strip(m["r"]) or {}).get("k") == "int":
+                                                            rew += strip(m["r"])["v"]
+                                                if not site or rew > K:
+                                                    sites_ok = False
+                                                    why = "call at %s:%s: not on the 0-outcome of psParseCanRead(.., %s) or rewound by %d > %d" % (
+                                                        caller.name, cln, larg, rew, K)
+                                ok = sites_ok and nsites > 0
+                                if ok:
+                                    why = "initial fragment: fragIndex = 0 before; %d call site(s) on the 0-outcome of psParseCanRead(pb, len), rewind <= %d" % (nsites, K)
+                    f_ = None
+                    if not ok:
+                        f_ = Finding(PROP, rid, fn.name, "reassembly index may pass the total",
+                                     "%s:%s %s(): `%s`: %s - once ssl->fragIndex exceeds ssl->fragTotal the next fragment is copied to "
+                                     "ssl->fragMessage + fragIndex with the capacity fragTotal - fragIndex wrapped to a huge value (heap "
+                                     "overflow with peer-chosen bytes)" % (fn.relfile, ln, fn.name, pp(nd)[:50], why), file=fn.relfile, line=ln)
+                    res.instance(rid, "%s:%s %s (%s)" % (fn.name, ln, pp(nd)[:40], why[:90]), ok, finding=f_)
+    if nb < 2:
+        raise AnalysisBroken("C08.R3: only %d writers of ssl->fragIndex found in the TLS 1.3 reassembly functions" % nb)
+    res.floor(rid, 4)
